@@ -635,3 +635,63 @@ contract(
               ("keep_empty", '> 0', '>= 0'),
               ("shrink_wrong_sign", '(table["start"] - bp)', '(table["start"] + bp)')],
 )
+
+
+# ----------------------------------------------------------------------------- deductive: row selection kernels (C07)
+@spec
+def hitq(mode, s, e, qs, qe):
+    """the statement's selection rule with open sides: outer = overlap by at least one base, inner = containment"""
+    return ((qs is None or (some(qs) == 0) or (e > some(qs) if mode == "outer" else s >= some(qs))) and
+            (qe is None or (s < some(qe) if mode == "outer" else e <= some(qe))))
+
+
+_TAB = TabT(index="range", chromosome=CHROM, start=Int, end=Int)
+_SEL_ENS = ("forall(0, len(SEQ), lambda q: forall(0, len(table), lambda k: "
+            "SEQ[q][0][k] == hitq(mode, table.start[k], table.end[k], starts[q], ends[q])))")
+
+contract(
+    "skgenome/intersect.py::_irange_nested",
+    params=dict(table=_TAB, starts=VecT(Opt(Int), kind="list"), ends=VecT(Opt(Int), kind="list"), mode=Lit("inner", "outer")),
+    yields=TupT(VecT(Bool), Opt(Int), Opt(Int)),
+    requires=["len(starts) == len(ends)", "len(starts) > 0", "nondecreasing(table.start)",
+              "forall(0, len(table), lambda k: 0 <= table.start[k] and table.start[k] < table.end[k])",
+              "forall(0, len(starts), lambda q: starts[q] is None or some(starts[q]) >= 0)"],
+    ensures=[
+        ("one_mask_per_query", "len(result) == len(starts)"),
+        ("mask_length", "forall(0, len(result), lambda q: len(result[q][0]) == len(table))"),
+        ("selected_iff_hit", _SEL_ENS.replace("SEQ", "result")),
+    ],
+    loops={0: dict(inv=[("count", "len(out_) == i_"),
+                        ("mask_length", "forall(0, i_, lambda q: len(out_[q][0]) == len(table))"),
+                        ("selected_iff_hit", _SEL_ENS.replace("len(SEQ)", "i_").replace("SEQ", "out_"))])},
+    props=("C07",), domain="skip",
+    canaries=[("inner_end_lt", "table.end.values <= end_val", "table.end.values < end_val"),
+              ("outer_start_ge", "table.end.values > start_val", "table.end.values >= start_val"),
+              ("outer_end_left_of", "region_mask[int(end_idx) :] = 0", "region_mask[int(end_idx) + 1 :] = 0")],
+)
+
+_SIMPLE_ENS = ("forall(0, len(SEQ), lambda q: forall(0, len(table), lambda k: "
+               "(SEQ[q][0].start <= k and k < SEQ[q][0].stop) == "
+               "hitq(mode, table.start[k], table.end[k], ite(starts is None, 0, starts[q]), ite(ends is None, None, ends[q]))))")
+
+contract(
+    "skgenome/intersect.py::_irange_simple",
+    params=dict(table=_TAB, starts=Opt(VecT(Int, kind="series")), ends=Opt(VecT(Int, kind="series")), mode=Lit("inner", "outer")),
+    yields=TupT(SliceT(), Int, Opt(Int)),
+    # the condition under which idx_ranges dispatches here: ends (and starts) of the table rows are sorted
+    requires=["nondecreasing(table.start)", "nondecreasing(table.end)",
+              "forall(0, len(table), lambda k: 0 <= table.start[k] and table.start[k] < table.end[k])",
+              "starts is None or ends is None or len(starts) == len(ends)",
+              "starts is None or len(starts) > 0", "ends is None or len(ends) > 0",
+              "starts is None or forall(0, len(starts), lambda q: starts[q] >= 0)"],
+    ensures=[
+        ("one_slice_per_query", "len(result) == ite(starts is None, ite(ends is None, 1, len(ends)), len(starts))"),
+        ("selected_iff_hit", _SIMPLE_ENS.replace("SEQ", "result")),
+    ],
+    loops={0: dict(inv=[("count", "len(out_) == i_"),
+                        ("selected_iff_hit", _SIMPLE_ENS.replace("len(SEQ)", "i_").replace("SEQ", "out_"))])},
+    props=("C07",), domain="skip",
+    canaries=[("outer_right_to_left", 'table.end.searchsorted(starts, "right")', 'table.end.searchsorted(starts, "left")'),
+              ("inner_end_left", 'end_idxs = table.end.searchsorted(ends, "right")', 'end_idxs = table.end.searchsorted(ends, "left")'),
+              ("outer_end_right", "end_idxs = table.start.searchsorted(ends)", 'end_idxs = table.start.searchsorted(ends, "right")')],
+)
